@@ -7,7 +7,8 @@ x systematic corruptions:
     (`**x`, `***d`, `:t`, `::x`, `k:`), and — native grids — given another native type (None, int, float, NaN,
     bool, datetime, date, time, an int beyond float range); a cell appended to the row;
   * every row deleted, duplicated, shortened by one cell, emptied;
-through `read_csv(io.StringIO(text))` (text grids) and `parse_blocks(rows)` (native grids), with the default
+through `read_csv(io.StringIO(text))` and `read_csv(path)` (text grids), `parse_blocks(rows)` with rows as lists and
+as tuples (native grids) and `read_excel(path)` on workbooks with and without their <dimension> record, with the default
 (raising) and a collecting tracker, output forms pdtable / jsondata / cellgrid, default and lenient fixer.
 
 Correspondence: every run against Lean `parseBlocks` / `readCsv` (ops "parse_blocks", "read_csv_blocks"): how
@@ -25,10 +26,16 @@ Oracle (no model involved), per corrupted input D of an undamaged input U:
   by the number of rows inserted / removed).
 External law checked on every generated string: pandas.to_datetime fails only with ValueError (subclasses).
 """
+import contextlib
 import datetime
 import io
 import logging
+import os
+import re
+import shutil
+import tempfile
 import warnings
+import zipfile
 
 from harness import common, reader_common as rc, blocks_common as bc
 from harness.common import Outcome, make_rng, grid_to_json
@@ -42,7 +49,14 @@ EXTRA = {
         "cells are scalars of the native types a reader produces: str, None, int, float, bool, datetime, date/time "
         "(kept as opaque `other`); rows are lists. Unhashable cells (list, dict) in an onoff column raise TypeError in "
         "the dictionary lookup — outside the input domain of every reader",
-        "read_csv is exercised on io.StringIO (lines end in \\n only, no newline translation); separator ';'",
+        "read_csv is exercised on io.StringIO and on a file on disk (locale encoding, lines end in \\n); separator ';'",
+        "truncation is at CHARACTER granularity (the property's quantifier). A file cut inside a multi-byte UTF-8 "
+        "character makes the text decoder raise UnicodeDecodeError in `for line in f`, before any row reaches the reader: "
+        "byte granularity is outside the quantifier and not exercised",
+        "read_excel: workbooks written by openpyxl from the (storable) damaged grid, read back with and without the "
+        "<dimension> record; the rows handed to the model are those openpyxl's read-only reader yields",
+        "the origin row of a delivered jsondata / cellgrid table is observed by wrapping the TABLE handler inside the "
+        "harness process (no change to /repo)",
         "CPython float(), pandas.to_datetime and numpy/pandas dtype inference are external parameters of the model",
         "DataFrame / Table construction on top of a successfully parsed precursor raises only ValueError or "
         "ColumnUnitException (modelled: unequal column lengths, mixed UTC offsets); compared on every case",
@@ -64,7 +78,7 @@ TEXT_FAULTS = ["", " ", "abc", "**x", "***d", ":t", "::x", "k:", "a:b:", "1", "-
                "*", "**", "****", "1e400", "x;y"]
 NATIVE_FAULTS = [None, 0, 5, -1, 1.5, float("nan"), float("inf"), True, False, datetime.datetime(2020, 1, 2),
                  datetime.datetime(2020, 1, 2, tzinfo=datetime.timezone.utc), datetime.date(2020, 1, 2),
-                 datetime.time(1, 2), 2 ** 1024, -2 ** 1024, 10 ** 20]
+                 datetime.time(1, 2), datetime.timedelta(hours=1, minutes=30), 2 ** 1024, -2 ** 1024, 10 ** 20]
 NAMES = ["a", "b", "c", "é", "x1", "T_2", "col", "dd", "q", "Z"]
 LEGAL = {
     "text": ["a", " a ", "-", "nan", "None", "1.5", "é µ", "TRUE", "k", "b c"],
@@ -138,17 +152,48 @@ def split_text(text):
 
 # --------------------------------------------------------------------------- running the real code
 
-def run_text(text, to, tracker, fixer_kind):
-    """read_csv on a text stream, canonicalised like bc.impl_parse_blocks"""
-    from pdtable import read_csv
+@contextlib.contextmanager
+def recording_table_handler(to, rec):
+    """harness-side observation only: wrap the TABLE handler `parse_blocks` installs for this output form so that
+    the origin row of every table block whose handler RETURNED is recorded (jsondata / cellgrid values carry no
+    origin themselves)"""
+    import pdtable.io.parsers.blocks as B
+    orig = B._table_handlers[to]
+
+    def wrapped(cells, *a, **kw):
+        origin = kw.get("origin", a[0] if a else None)
+        val = orig(cells, *a, **kw)
+        rec.append(getattr(getattr(origin, "input_location", None), "row", None))
+        return val
+    B._table_handlers[to] = wrapped
+    try:
+        yield
+    finally:
+        B._table_handlers[to] = orig
+
+
+def run_reader(route, payload, to, tracker, fixer_kind):
+    """the real reader: route "native" (parse_blocks on the row objects as given: lists or tuples), "text"
+    (read_csv on io.StringIO), "file" (read_csv on a path), "excel" (read_excel on a path).
+    -> blocks / issues / ending as bc.impl_parse_blocks, + "tables": [(origin row, value)] of the delivered tables"""
+    from pdtable import read_csv, read_excel
+    from pdtable.io.parsers.blocks import parse_blocks
     from pdtable.table_origin import InputError
     tr = bc.collecting_tracker() if tracker == "collecting" else None
     fixer = rc.make_fixer(fixer_kind) if fixer_kind else None
-    blocks, ending = [], "exhausted"
+    blocks, ending, rec = [], "exhausted", []
     try:
-        with warnings.catch_warnings():
+        with warnings.catch_warnings(), recording_table_handler(to, rec):
             warnings.simplefilter("ignore")
-            for bt, val in read_csv(io.StringIO(text), to=to, issue_tracker=tr, fixer=fixer):
+            if route == "native":
+                gen = parse_blocks(iter(payload), to=to, issue_tracker=tr, fixer=fixer)
+            elif route == "text":
+                gen = read_csv(io.StringIO(payload), to=to, issue_tracker=tr, fixer=fixer)
+            elif route == "file":
+                gen = read_csv(payload, to=to, issue_tracker=tr, fixer=fixer)
+            else:
+                gen = read_excel(payload, to=to, issue_tracker=tr, fixer=fixer)
+            for bt, val in gen:
                 first = None
                 try:
                     first = val.metadata.origin.input_location.row
@@ -162,13 +207,60 @@ def run_text(text, to, tracker, fixer_kind):
         ending = {"escaped": type(e).__name__}
     issues = [getattr(i.load_location, "row", None) for i in tr.issues] if tr is not None else \
         ([ending["InputError"]] if isinstance(ending, dict) and "InputError" in ending else [])
-    return {"blocks": blocks, "issues": issues, "ending": ending}
+    tvals = [b["val"] for b in blocks if b["ty"] == "TABLE"]
+    tables = list(zip(rec, tvals)) if len(rec) == len(tvals) else [(None, v) for v in tvals]
+    return {"blocks": blocks, "issues": issues, "ending": ending, "tables": tables}
 
 
-def run_impl(rows, text, to, tracker, fixer_kind):
-    if text is not None:
-        return run_text(text, to, tracker, fixer_kind)
-    return bc.impl_parse_blocks(rows, to=to, tracker=tracker, fixer_kind=fixer_kind)
+def write_text_file(tmpdir, text, n):
+    path = os.path.join(tmpdir, f"c12_{n}.csv")
+    with open(path, "w", newline="") as f:           # locale encoding, as read_csv's open(source) reads it
+        f.write(text)
+    return path
+
+
+def excel_storable(c):
+    if c is None or isinstance(c, (str, bool)):
+        return not (isinstance(c, str) and (c == "" or c.startswith("=")))
+    if isinstance(c, int):
+        return abs(c) < 10 ** 15
+    if isinstance(c, float):
+        return c == c and abs(c) != float("inf")
+    if isinstance(c, datetime.datetime):
+        return c.tzinfo is None
+    return isinstance(c, (datetime.date, datetime.time, datetime.timedelta))
+
+
+def write_xlsx(tmpdir, rows, n, strip_dimension):
+    """one sheet holding `rows`; optionally without the <dimension> record (as other writers produce it): the
+    read-only reader then yields ragged tuple rows"""
+    import openpyxl
+    path = os.path.join(tmpdir, f"c12_{n}.xlsx")
+    wb = openpyxl.Workbook()
+    ws = wb.active
+    for r in rows:
+        ws.append(list(r))
+    wb.save(path)
+    if strip_dimension:
+        tmp = path + ".tmp"
+        with zipfile.ZipFile(path) as zin, zipfile.ZipFile(tmp, "w", zipfile.ZIP_DEFLATED) as zout:
+            for item in zin.infolist():
+                data = zin.read(item.filename)
+                if item.filename.startswith("xl/worksheets/sheet"):
+                    data = re.sub(rb"<dimension [^>]*/>", b"", data)
+                zout.writestr(item, data)
+        os.replace(tmp, path)
+    return path
+
+
+def read_xlsx_rows(path):
+    """the rows exactly as openpyxl's read-only reader yields them (computed without pdtable)"""
+    import openpyxl
+    wb = openpyxl.load_workbook(path, read_only=True, data_only=True, keep_links=False)
+    try:
+        return [tuple(r) for r in wb.worksheets[0].iter_rows(values_only=True)]
+    finally:
+        wb.close()
 
 
 _EXT = {"floats": {}, "dts": {}, "digits": set()}
@@ -215,8 +307,9 @@ def first_diff(a, b):
     return n
 
 
-def judge(out, case, drows, urows, u_blocks, res_r, res_c, prefix_run, shift, to):
-    """the statement evaluated on the implementation's outputs; returns False after the first failure"""
+def judge(out, case, drows, urows, u_res, res_r, res_c, prefix_run, shift, to):
+    """the statement evaluated on the implementation's outputs; returns False after the first failure.
+    Table origin rows come from the recording handler, so every check runs for all three output forms."""
     for nm, res in (("raising", res_r), ("collecting", res_c)):
         if res is None:
             continue
@@ -237,27 +330,26 @@ def judge(out, case, drows, urows, u_blocks, res_r, res_c, prefix_run, shift, to
             out.fail("with a collecting tracker the read did not run to the end", dict(case, tracker="collecting"),
                      res_c["ending"], "exhausted", key="collecting_stopped")
             return False
-        if to == "pdtable":
-            deliv = [b["first"] for b in res_c["blocks"] if b["ty"] == "TABLE"]
-            if sorted(deliv + res_c["issues"]) != starts or deliv != sorted(deliv) or res_c["issues"] != sorted(res_c["issues"]):
-                out.fail("table blocks are not partitioned into delivered and reported, in order", dict(case, tracker="collecting"),
-                         {"delivered": deliv, "issues": res_c["issues"]}, starts, key="partition")
-                return False
+        deliv = [f for f, _ in res_c["tables"]]
+        if None in deliv or sorted(deliv + res_c["issues"]) != starts or deliv != sorted(deliv) or \
+                res_c["issues"] != sorted(res_c["issues"]):
+            out.fail("table blocks are not partitioned into delivered and reported, in order", dict(case, tracker="collecting"),
+                     {"delivered": deliv, "issues": res_c["issues"]}, starts, key="partition")
+            return False
     if res_r is not None:
         end = res_r["ending"]
-        if to == "pdtable":
-            deliv = [b["first"] for b in res_r["blocks"] if b["ty"] == "TABLE"]
-            if end == "exhausted":
-                if deliv != starts:
-                    out.fail("a read that ended normally did not deliver every table block", dict(case, tracker="raising"),
-                             deliv, starts, key="raising_missing")
-                    return False
-            else:
-                r = end["InputError"]
-                if deliv != [s for s in starts if s < r]:
-                    out.fail("tables before the error were not all delivered before it", dict(case, tracker="raising"),
-                             deliv, [s for s in starts if s < r], key="raising_before_error")
-                    return False
+        deliv = [f for f, _ in res_r["tables"]]
+        if end == "exhausted":
+            if deliv != starts:
+                out.fail("a read that ended normally did not deliver every table block", dict(case, tracker="raising"),
+                         deliv, starts, key="raising_missing")
+                return False
+        else:
+            r = end["InputError"]
+            if deliv != [s for s in starts if s < r]:
+                out.fail("tables before the error were not all delivered before it", dict(case, tracker="raising"),
+                         deliv, [s for s in starts if s < r], key="raising_before_error")
+                return False
         if res_c is not None:
             n = len(res_r["blocks"])
             if res_r["blocks"] != res_c["blocks"][:n]:
@@ -270,12 +362,12 @@ def judge(out, case, drows, urows, u_blocks, res_r, res_c, prefix_run, shift, to
                          key="raising_first_issue")
                 return False
     # blocks completed before the damage are delivered unchanged, first
-    if prefix_run is not None and u_blocks is not None:
+    if prefix_run is not None and u_res is not None:
         n = len(prefix_run["blocks"]) - 1
         if n > 0:
             want = prefix_run["blocks"][:n]
-            if u_blocks[:n] != want:
-                out.fail("undamaged read does not start with the blocks of its own prefix", case, u_blocks[:n], want,
+            if u_res["blocks"][:n] != want:
+                out.fail("undamaged read does not start with the blocks of its own prefix", case, u_res["blocks"][:n], want,
                          key="prefix_undamaged")
                 return False
             for nm, res in (("raising", res_r), ("collecting", res_c)):
@@ -283,23 +375,18 @@ def judge(out, case, drows, urows, u_blocks, res_r, res_c, prefix_run, shift, to
                     out.fail("blocks that end before the damage are not delivered unchanged before the error",
                              dict(case, tracker=nm), res["blocks"][:n], want, key="earlier_blocks")
                     return False
-    # collecting: undamaged tables after the damage are delivered too
-    if res_c is not None and shift is not None and u_blocks is not None and to == "pdtable":
+    # collecting: undamaged tables after the damage are delivered too (same value, origin row moved by `shift`)
+    if res_c is not None and shift is not None and u_res is not None:
         d = first_diff(urows, drows)
-        got = {b["first"]: b for b in res_c["blocks"] if b["ty"] == "TABLE"}
-        for b in u_blocks:
-            if b["ty"] != "TABLE" or b["first"] <= d:
+        got = dict(res_c["tables"])
+        for first, val in u_res["tables"]:
+            if first is None or first <= d:
                 continue
-            g = got.get(b["first"] + shift)
-            if g is None or g["val"] != shifted(b, shift)["val"]:
+            if (first + shift) not in got or got[first + shift] != val:
                 out.fail("an undamaged table after the damage was not delivered unchanged by the collecting read", case,
-                         None if g is None else g["val"], b["val"], key="later_blocks")
+                         got.get(first + shift), val, key="later_blocks")
                 return False
     return True
-
-
-def shifted(b, shift):
-    return b
 
 
 # --------------------------------------------------------------------------- corruption enumeration
@@ -342,14 +429,20 @@ def run(tier, seed, model_ok, translator, search=False):
     out = Outcome()
     out.rule = ("valid multi-block inputs x {truncation after every row; (text) after every character [quick: 60 sampled "
                 "positions]; every cell (and one appended cell) x fault alphabet [quick: 2 sampled faults per cell]; every "
-                "row deleted / duplicated / shortened / emptied} x {read_csv text, parse_blocks native} x {raising, "
-                "collecting} tracker x output form x {default, lenient} fixer. Non-trivial: the damaged input differs "
-                "from the undamaged one; distinct by damaged input + configuration. Base i is generated from (seed, i).")
+                "row deleted / duplicated / shortened / emptied} x routes {parse_blocks on native rows given as lists or as "
+                "tuples; read_csv on io.StringIO; read_csv on a file path; read_excel on a workbook with and without its "
+                "<dimension> record (sampled faults)} x {raising, collecting} tracker x output form x {default, lenient} "
+                "fixer. Non-trivial: the damaged input differs from the undamaged one; distinct by damaged input + "
+                "configuration. Base i is generated from (seed, i).")
     thorough = tier == "thorough"
     n_bases = 20 if thorough else (12 if search else 6)
     ops, pend = [], []
-    for bi in range(n_bases):
-        one_base(seed, bi, thorough, out, model_ok, ops, pend)
+    tmpdir = tempfile.mkdtemp(prefix="c12-")
+    try:
+        for bi in range(n_bases):
+            one_base(seed, bi, thorough, out, model_ok, ops, pend, tmpdir)
+    finally:
+        shutil.rmtree(tmpdir, ignore_errors=True)
     if model_ok and ops:
         for (case, tracker, impl), ans in zip(pend, common.run_model(ops)):
             if isinstance(ans, dict) and "error" in ans:
@@ -359,18 +452,33 @@ def run(tier, seed, model_ok, translator, search=False):
                 out.mismatch("read_csv rows: pdtable vs Lean readCsvRows", case, case["rows"], ans.get("rows"))
                 continue
             want = bc.canon_model(ans)
-            if want != impl:
+            got = {"blocks": impl["blocks"], "issues": impl["issues"], "ending": impl["ending"]}
+            if want != got:
                 out.mismatch("pdtable vs Lean parseBlocks (ending / issues / blocks)", dict(case, tracker=tracker),
-                             {"ending": impl["ending"], "issues": impl["issues"], "blocks": impl["blocks"]},
+                             {"ending": got["ending"], "issues": got["issues"], "blocks": got["blocks"]},
                              {"ending": want["ending"], "issues": want["issues"], "blocks": want["blocks"]})
     return out
 
 
-def one_base(seed, bi, thorough, out, model_ok, ops, pend, only=None):
+def transposed_line_rows(rows):
+    """indices of the `name, unit, values…` lines of transposed tables"""
+    out, inside = [], False
+    for i, r in enumerate(rows):
+        if is_table_start(r):
+            inside = r[0].endswith("*")
+            start = i
+        elif not r or not r[0]:
+            inside = False
+        elif inside and i >= start + 2:
+            out.append(i)
+    return out
+
+
+def one_base(seed, bi, thorough, out, model_ok, ops, pend, tmpdir, only=None):
     rng = make_rng(seed, f"C12:{bi}")
     urows, layout = gen_base(rng)
     utext = to_text(urows)
-    u = bc.impl_parse_blocks(urows, to="pdtable", tracker="collecting")
+    u = run_reader("native", urows, "pdtable", "collecting", None)
     if u["issues"] or u["ending"] != "exhausted":
         out.fail("a valid input was not read completely", {"seed": seed, "base": bi, "rows": grid_to_json(urows)},
                  {"issues": u["issues"], "ending": u["ending"]}, None, key="valid_rejected")
@@ -383,16 +491,31 @@ def one_base(seed, bi, thorough, out, model_ok, ops, pend, only=None):
         key = (route, d, to)
         if key not in prefix_cache:
             base = trows if route == "text" else urows
-            prefix_cache[key] = bc.impl_parse_blocks(base[:d], to=to, tracker="collecting")
+            prefix_cache[key] = run_reader("native", base[:d], to, "collecting", None)
         return prefix_cache[key]
 
-    def u_blocks(route, to):
+    def u_run(route, to):
         if (route, to) not in u_by_form:
             base = trows if route == "text" else urows
-            u_by_form[(route, to)] = bc.impl_parse_blocks(base, to=to, tracker="collecting")["blocks"]
+            u_by_form[(route, to)] = run_reader("native", base, to, "collecting", None)
         return u_by_form[(route, to)]
 
+    def emit_model(case, drows, dtext, to, fixer_kind, trackers, res):
+        if not model_ok:
+            ext_for(drows, out)
+            return
+        ext = ext_for(drows, out)
+        for tr in trackers:
+            if dtext is not None:
+                ops.append({"op": "read_csv_blocks", "text": dtext, "sep": ";", "to": to, "filter": None, "tracker": tr,
+                            "fixer": rc.FIXERS[fixer_kind or "strict"], "ext": ext})
+            else:
+                ops.append({"op": "parse_blocks", "rows": case["rows"], "to": to, "filter": None, "tracker": tr,
+                            "fixer": rc.FIXERS[fixer_kind or "strict"], "ext": ext})
+            pend.append((case, tr, res[tr]))
+
     idx = 0
+    n_files = 0
     for route in ("native", "text"):
         gens = corruptions(rng, urows, thorough, native_ok=(route == "native"))
         if route == "text":
@@ -401,56 +524,99 @@ def one_base(seed, bi, thorough, out, model_ok, ops, pend, only=None):
             idx += 1
             if only is not None and idx != only:
                 # keep the random stream aligned: the choices below are drawn for every case
-                rng.random(); rng.random(); rng.random()
+                rng.random(); rng.random(); rng.random(); rng.random()
                 continue
-            r1, r2, r3 = rng.random(), rng.random(), rng.random()
+            r1, r2, r3, r4 = rng.random(), rng.random(), rng.random(), rng.random()
             to = "pdtable" if r1 < 0.7 else ("jsondata" if r1 < 0.9 else "cellgrid")
             fixer_kind = None if r2 < 0.85 else "lenient"
             if thorough and kind == "cell":
                 trackers = ["raising"] if r3 < 0.5 else ["collecting"]
             else:
                 trackers = ["raising", "collecting"]
+            how = route
             if route == "text":
                 if dtext is None:
                     if any(not isinstance(c, str) or "\n" in c for r in drows for c in r):
                         continue
                     dtext = to_text(drows)
                 drows = split_text(dtext)
-            case = {"seed": seed, "base": bi, "index": idx, "route": route, "kind": kind, "detail": detail, "to": to,
+                # a file on disk instead of a stream: every character truncation in the quick tier, a share otherwise
+                if (kind == "trunc_char" and (not thorough or r4 < 0.3)) or r4 < 0.08:
+                    how = "file"
+            elif r4 < 0.5:
+                how = "native-tuples"                      # rows as tuples, as the Excel reader delivers them
+            case = {"seed": seed, "base": bi, "index": idx, "route": how, "kind": kind, "detail": detail, "to": to,
                     "fixer": fixer_kind or "default", "rows": grid_to_json(drows)}
             if route == "text":
                 case["text"] = dtext
             out.evaluations += 1
             if drows != (trows if route == "text" else urows):
-                out.nontrivial.add(hash((repr(drows), route, to, fixer_kind)))
+                out.nontrivial.add(hash((repr(drows), how, to, fixer_kind)))
             if len(out.samples) < 4 and kind in ("cell", "trunc_char") and idx % 37 == 0:
                 out.samples.append(case)
-            out.count("route:" + route)
+            out.count("route:" + how)
             out.count("kind:" + kind)
             out.count("to:" + to)
             out.count("fixer:" + (fixer_kind or "default"))
+            if how == "file":
+                n_files += 1
+                payload = write_text_file(tmpdir, dtext, n_files)
+            elif how == "text":
+                payload = dtext
+            elif how == "native-tuples":
+                payload = [tuple(r) for r in drows]
+            else:
+                payload = [list(r) for r in drows]
             res = {}
             for tr in trackers:
-                res[tr] = run_impl(drows, dtext if route == "text" else None, to, tr, fixer_kind)
+                res[tr] = run_reader({"native-tuples": "native"}.get(how, how), payload, to, tr, fixer_kind)
                 e = res[tr]["ending"]
                 out.count("ending:" + tr + ":" + (e if isinstance(e, str) else next(iter(e))))
+            if how == "file":
+                os.remove(payload)
             uro = trows if route == "text" else urows
             d = first_diff(uro, drows)
             pr = prefix_run(route, d, to) if fixer_kind is None else None
-            ub = u_blocks(route, to) if fixer_kind is None else None
-            judge(out, case, drows, uro, ub, res.get("raising"), res.get("collecting"), pr, shift, to)
-            if model_ok:
-                ext = ext_for(drows, out)
-                for tr in trackers:
-                    if route == "text":
-                        ops.append({"op": "read_csv_blocks", "text": dtext, "sep": ";", "to": to, "filter": None, "tracker": tr,
-                                    "fixer": rc.FIXERS[fixer_kind or "strict"], "ext": ext})
-                    else:
-                        ops.append({"op": "parse_blocks", "rows": case["rows"], "to": to, "filter": None, "tracker": tr,
-                                    "fixer": rc.FIXERS[fixer_kind or "strict"], "ext": ext})
-                    pend.append((case, tr, res[tr]))
-            else:
-                ext_for(drows, out)
+            ur = u_run(route, to) if fixer_kind is None else None
+            judge(out, case, drows, uro, ur, res.get("raising"), res.get("collecting"), pr, shift, to)
+            emit_model(case, drows, dtext if route == "text" else None, to, fixer_kind, trackers, res)
+
+    # ---- Excel route: the undamaged input and sampled storable faults, each as a workbook with and without its
+    # <dimension> record (without it the read-only reader yields ragged tuple rows)
+    xrng = make_rng(seed, f"C12x:{bi}")
+    cands = [c for c in corruptions(xrng, urows, False, True)
+             if all(excel_storable(x) for r in c[2] for x in r)]
+    tl = set(transposed_line_rows(urows))
+    forced = [c for c in cands if c[0] == "row_shorten" and c[1] in tl][:4]
+    picked = [("undamaged", None, [list(r) for r in urows], None, None)] + forced + \
+        xrng.sample(cands, min(len(cands), 24 if thorough else 5))
+    for kind, detail, xrows, _, _ in picked:
+        for strip in (False, True):
+            idx += 1
+            to = xrng.choice(["pdtable", "pdtable", "jsondata", "cellgrid"])
+            if only is not None and idx != only:
+                continue
+            n_files += 1
+            path = write_xlsx(tmpdir, xrows, n_files, strip)
+            try:
+                drows = read_xlsx_rows(path)
+                case = {"seed": seed, "base": bi, "index": idx, "route": "excel" + ("-nodimension" if strip else ""),
+                        "kind": kind, "detail": detail, "to": to, "fixer": "default", "rows": grid_to_json(drows)}
+                out.evaluations += 1
+                out.nontrivial.add(hash((repr(drows), "excel", strip, to)))
+                out.count("route:" + case["route"])
+                out.count("kind:" + kind)
+                if len({len(r) for r in drows}) > 1:
+                    out.count("excel: ragged rows")
+                res = {}
+                for tr in ("raising", "collecting"):
+                    res[tr] = run_reader("excel", path, to, tr, None)
+                    e = res[tr]["ending"]
+                    out.count("ending:" + tr + ":" + (e if isinstance(e, str) else next(iter(e))))
+            finally:
+                os.remove(path)
+            judge(out, case, drows, None, None, res["raising"], res["collecting"], None, None, to)
+            emit_model(case, drows, None, to, None, ["raising", "collecting"], res)
 
 
 def replay(rep):
@@ -463,10 +629,14 @@ def replay(rep):
         return False, "replay file has no input (no-failing-input-found): " + str(rep.get("broken"))[:300]
     seed = int(inp.get("seed", rep.get("seed", 0)))
     o = Outcome()
-    for thorough in (False, True):
-        o = Outcome()
-        one_base(seed, int(inp["base"]), thorough, o, False, [], [], only=int(inp["index"]))
-        hit = [f for f in o.failures if f["input"].get("rows") == inp.get("rows")]
-        if hit:
-            return False, hit[0]["what"]
+    tmpdir = tempfile.mkdtemp(prefix="c12-")
+    try:
+        for thorough in (False, True):
+            o = Outcome()
+            one_base(seed, int(inp["base"]), thorough, o, False, [], [], tmpdir, only=int(inp["index"]))
+            hit = [f for f in o.failures if f["input"].get("rows") == inp.get("rows")]
+            if hit:
+                return False, hit[0]["what"]
+    finally:
+        shutil.rmtree(tmpdir, ignore_errors=True)
     return True, "property holds on this input (case regenerated from seed, base and index)"
